@@ -374,6 +374,8 @@ def known_match(prop, viol, known):
                 ok = ok and env.get("kind") == val
             elif key == "kinds":
                 ok = ok and env.get("kind") in val
+            elif key == "stream":
+                ok = ok and viol.get("stream") == val
             elif key == "checker":
                 ok = ok and viol.get("checker") == val
             elif key == "probe":
